@@ -258,6 +258,10 @@ def dpor_extra_spaces(which):
                          "progs": dporcheck.space2(3, ["park", "ld", "st"], ["ld", "st"], ["x"], ["m"], 2, 1, unpark_to=(1, 2, 3))},
         "yield": lambda: {"label": "dporYield", "n": 3, "invariants": False, "progs": dporcheck.space(3, ["ld", "st", "csld", "yield"], ["x", "y"], ["m"], 2, 0)},
         "try": lambda: {"label": "dporTry", "n": 3, "invariants": False, "progs": dporcheck.space(3, ["ld", "st", "csld", "try"], ["x"], ["m"], 2, 0)},
+        "rw": lambda: {"label": "dporRw", "n": 3, "progs": dporcheck.space(3, ["rdld", "wrst", "wrld", "ld", "st"], ["x"], ["m"], 2, 0)},
+        "rw4": lambda: {"label": "dporRw4", "n": 4, "progs": dporcheck.space(4, ["rdld", "wrst", "rdst"], ["x"], ["m"], 1, 0)},
+        "rwtry": lambda: {"label": "dporRwTry", "n": 3, "invariants": False,
+                          "progs": dporcheck.space(3, ["rdld", "wrst", "tryrd", "trywr"], ["x"], ["m"], 2, 0)},
         # exploration controls: stop_exploring regions around stores (loads inside a region return loom's default candidate),
         # reference = every decision outside a region is taken, none inside (Dpor.tla RefFrom with frozen scheduling)
         "rg": lambda: {"label": "dporRg", "n": 3, "progs": dporcheck.space(3, ["ld", "st", "rg", "rg1"], ["x", "y"], ["m"], 2, 0)},
@@ -313,6 +317,9 @@ def C07(ctx):
     ctx.assumptions += ["trace validation evaluates the spec lock machine's enabling condition at every recorded "
                         "lock/try_lock/read/write/try_* event; protected cells make a missing hand-over edge a race"]
     sync_family(ctx, families.locks(ctx.tier, ctx.seed))
+    # Dpor.tla with Mutex and RwLock (who is blocked, who is woken): whole program spaces; try_* spaces: conformance only (F13)
+    dpor_space(ctx, [None], ("C01",), quick_sample=150, spaces=dpor_extra_spaces(["rw", "rw4", "rwtry", "try"]) +
+               [("dpor2m", 3, ["csld", "csst", "st"], ["x"], ["m", "n"], 2, 0)])
 
 
 def C08(ctx):
